@@ -1,5 +1,9 @@
 import Mp.ProofsF
+import Mp.NullProofs
 /-! C02 — property theorems (proved in the imported modules; statements are checked there, axioms audited here). -/
 #print axioms Mp.filterList_spec
 #print axioms Mp.filter_slice
 #print axioms Mp.filter_compose
+#print axioms Mp.filter_single_object
+#print axioms Mp.filter_single_struct
+#print axioms Mp.filter_empty
